@@ -105,7 +105,7 @@ def escalate(chk, names):
 
 
 def run():
-    chk = Check("C08", props_modules=["GFO.Props.C08", "GFO.Gen.CoreGenCheck"], gen_steps=(translators.gen_core,))
+    chk = Check("C08", props_modules=["GFO.Props.C08", "GFO.Gen.CoreGenCheck", "GFO.Gen.PopIterGenCheck", "GFO.Gen.PatternGenCheck", "GFO.Gen.PowellGenCheck"], gen_steps=(translators.gen_core, translators.gen_popiter, translators.gen_pattern, translators.gen_powell, translators.gen_pins))
     chk.build_and_audit()
     r = C.rng("C08")
     quick = C.tier() != "thorough"
